@@ -372,6 +372,9 @@ class Gen:
             ss += [("if", self.cond(), ("block", [self.stmt(1), self.loop(1)]), ("block", [self.loop(1), self.stmt(1)]))]
             ss += [self.loop(0)]
         ss += self.stmts(0, n)
+        if self.c.skips and len(ss) >= 2 and self.r.random() < 0.08:
+            # a top-level return that is NOT the last statement: what follows is analysed all the same (in every mode)
+            ss.insert(self.r.randrange(1, len(ss)), ("s", self.r.choice(["return;", f"return {self.var()};"])))
         return ss
 
 
